@@ -13,6 +13,15 @@
     free of left recursion): the iteration starts from the empty sets, so it computes the least
     fixed point, and FOLLOW_k as defined in KSeq only asks the *right* context to be derivable.
 
+    Two places where the Rust code deviates from the definitions, both outside the grammars the
+    properties quantify over (noted here so that nobody is surprised by a harness mismatch):
+    - [KTuples::k_concat] keeps the k-complete strings of its left operand even if the right
+      operand is the empty set; here a product with the empty set is empty.  Visible only for
+      unproductive tails ([S -> a B; B -> B]: Rust FIRST_1(S) = {a}, definition ∅, see [g5_first_1])
+      and for unreachable non-terminals (FOLLOW_k = ∅).
+    - for k = 0 follow.rs seeds FOLLOW_0(start) with the one-symbol string [$]; the definition
+      gives {ε} (see [g1_k0]).  k = 0 is never requested by [decidable].
+
     Fuel: every function that iterates takes [fuel] = maximal number of rounds and returns [None]
     when it is exhausted.  A round that is not the last one adds at least one string to some
     set, so [1 + sum over non-terminals of |FIRST_k|] (resp. FOLLOW_k) rounds always suffice; in
@@ -184,3 +193,800 @@ Proof.
   split; intros H u Hu1 Hu2; apply (H u); try apply in_mk_set; try assumption;
     apply in_mk_set in Hu1; apply in_mk_set in Hu2; assumption.
 Qed.
+
+(** ** Truncated products of string sets *)
+
+Lemma firstn_app_short {A} k (u v : list A) :
+  length u <= k -> firstn k (u ++ v) = u ++ firstn (k - length u) v.
+Proof. intros H. rewrite firstn_app, firstn_all2 by exact H. reflexivity. Qed.
+
+(** The distinct prefixes of length [j] of the strings of [B], for [j = 0..k], computed once per
+    product ([B] sorted makes [map (firstn j) B] sorted, so [dedup] removes all duplicates). *)
+Definition prefixes (k : nat) (B : list str) : list (list str) :=
+  map (fun j => dedup (map (firstn j) B)) (seq 0 (S k)).
+
+Definition pref_at (ps : list (list str)) (B : list str) (j : nat) : list str :=
+  match nth_error ps j with
+  | Some l => l
+  | None => dedup (map (firstn j) B)
+  end.
+
+Lemma nth_error_map_seq {A} (f : nat -> A) : forall n s j l,
+  nth_error (map f (seq s n)) j = Some l -> l = f (s + j).
+Proof.
+  induction n as [|n IH]; intros s j l H; simpl in H.
+  - destruct j; discriminate.
+  - destruct j as [|j]; simpl in H.
+    + rewrite Nat.add_0_r. congruence.
+    + apply IH in H. rewrite H. f_equal. lia.
+Qed.
+
+Lemma pref_at_eq k B j : pref_at (prefixes k B) B j = dedup (map (firstn j) B).
+Proof.
+  unfold pref_at, prefixes.
+  destruct (nth_error (map (fun j => dedup (map (firstn j) B)) (seq 0 (S k))) j) as [l|] eqn:E;
+    [|reflexivity].
+  apply nth_error_map_seq in E. exact E.
+Qed.
+
+(** [{ (if c u || |u| >= k then u|k else (u ++ v)|k)  |  u ∈ A, v ∈ B }].  Strings of [A] that
+    cannot be extended are kept as they are *provided [B] is not empty*; for the others only the
+    distinct prefixes of the needed length of [B] are appended. *)
+Definition kprod_with (c : str -> bool) (k : nat) (A B : list str) (ps : list (list str))
+    : list str :=
+  mk_set (flat_map (fun u =>
+            if c u || (k <=? length u) then [firstn k u]
+            else map (app u) (pref_at ps B (k - length u))) A).
+
+Definition kprod (c : str -> bool) (k : nat) (A B : list str) : list str :=
+  match B with
+  | [] => []
+  | _ :: _ => kprod_with c k A B (prefixes k B)
+  end.
+
+Lemma in_kprod c k A B w :
+  In w (kprod c k A B) <->
+  exists u v, In u A /\ In v B /\
+    w = if c u || (k <=? length u) then firstn k u else firstn k (u ++ v).
+Proof.
+  destruct B as [|b B'].
+  - simpl. split; [intros []|intros (u & v & _ & [] & _)].
+  - unfold kprod, kprod_with. rewrite in_mk_set, in_flat_map. split.
+    + intros (u & Hu & Hw). destruct (c u || (k <=? length u)) eqn:E.
+      * destruct Hw as [<-|[]]. exists u, b. rewrite E. repeat split; auto. left. reflexivity.
+      * rewrite pref_at_eq in Hw.
+        apply in_map_iff in Hw as (x & <- & Hx). rewrite in_dedup in Hx.
+        apply in_map_iff in Hx as (v & <- & Hv). exists u, v. rewrite E. repeat split; auto.
+        apply orb_false_iff in E as [_ E]. apply Nat.leb_gt in E.
+        symmetry. apply firstn_app_short. lia.
+    + intros (u & v & Hu & Hv & ->). exists u. split; [exact Hu|].
+      destruct (c u || (k <=? length u)) eqn:E; [left; reflexivity|].
+      apply orb_false_iff in E as [_ E]. apply Nat.leb_gt in E.
+      rewrite pref_at_eq.
+      rewrite firstn_app_short by lia. apply in_map. apply in_dedup. apply in_map. exact Hv.
+Qed.
+
+(** List-level [kcat_sets] and [kconcat_sets]. *)
+Definition kcat_l (k : nat) (A B : list str) : list str := kprod (fun _ => false) k A B.
+Definition kconcat_l (k : nat) (A B : list str) : list str := kprod ends_eoi k A B.
+
+Lemma in_kcat_l k A B w :
+  In w (kcat_l k A B) <-> exists u v, In u A /\ In v B /\ w = kcat k u v.
+Proof.
+  unfold kcat_l. rewrite in_kprod. simpl.
+  split; intros (u & v & Hu & Hv & ->); exists u, v; repeat split; auto; unfold kcat;
+    destruct (Nat.leb_spec k (length u)) as [H|H]; try reflexivity;
+    [symmetry|]; apply firstn_app_long; exact H.
+Qed.
+
+Lemma in_kconcat_l k A B w :
+  In w (kconcat_l k A B) <-> exists u v, In u A /\ In v B /\ w = kconcat k u v.
+Proof. unfold kconcat_l. rewrite in_kprod. reflexivity. Qed.
+
+(** ** Tables indexed by non-terminals *)
+
+Definition tbl := list (N * list str).
+
+Definition lookup (t : tbl) (a : N) : list str :=
+  match find (fun r => N.eqb (fst r) a) t with
+  | Some r => snd r
+  | None => []
+  end.
+
+Lemma lookup_map_in (f : N -> list str) keys a :
+  In a keys -> lookup (map (fun b => (b, f b)) keys) a = f a.
+Proof.
+  unfold lookup. induction keys as [|b keys IH]; intros H; [destruct H|]. simpl.
+  destruct (N.eqb_spec b a) as [->|Hn]; [reflexivity|].
+  destruct H as [H|H]; [contradiction|]. apply IH, H.
+Qed.
+
+Lemma lookup_map_notin (f : N -> list str) keys a :
+  ~ In a keys -> lookup (map (fun b => (b, f b)) keys) a = [].
+Proof.
+  unfold lookup. induction keys as [|b keys IH]; intros H; [reflexivity|]. simpl.
+  destruct (N.eqb_spec b a) as [->|Hn]; [exfalso; apply H; left; reflexivity|].
+  apply IH. intros H'. apply H. right. exact H'.
+Qed.
+
+(** Sorted duplicate-free list of the non-terminals of a grammar: the row keys of all tables. *)
+Fixpoint ninsert (a : N) (l : list N) : list N :=
+  match l with
+  | [] => [a]
+  | b :: l' => match N.compare a b with
+               | Lt => a :: l
+               | Eq => l
+               | Gt => b :: ninsert a l'
+               end
+  end.
+
+Lemma in_ninsert x a l : In x (ninsert a l) <-> x = a \/ In x l.
+Proof.
+  induction l as [|b l IH]; simpl; [intuition|].
+  destruct (N.compare_spec a b) as [E|E|E]; simpl; [subst|..]; try rewrite IH; intuition.
+Qed.
+
+Definition nt_keys (g : cfg) : list N := fold_right ninsert [] (nts g).
+
+Lemma in_nt_keys g a : In a (nt_keys g) <-> In a (nts g).
+Proof.
+  unfold nt_keys. induction (nts g) as [|b l IH]; simpl; [reflexivity|].
+  rewrite in_ninsert, IH. intuition.
+Qed.
+
+Definition empty_tbl (keys : list N) : tbl := map (fun a => (a, [])) keys.
+
+Lemma lookup_empty keys a : lookup (empty_tbl keys) a = [].
+Proof.
+  unfold empty_tbl. destruct (in_dec N.eq_dec a keys) as [H|H].
+  - apply (lookup_map_in (fun _ => [])). exact H.
+  - apply (lookup_map_notin (fun _ => [])). exact H.
+Qed.
+
+(** Structural equality of tables. *)
+Fixpoint list_eqb {A} (eqb : A -> A -> bool) (l1 l2 : list A) : bool :=
+  match l1, l2 with
+  | [], [] => true
+  | x :: l1', y :: l2' => eqb x y && list_eqb eqb l1' l2'
+  | _, _ => false
+  end.
+
+Lemma list_eqb_eq {A} (eqb : A -> A -> bool) :
+  (forall x y, eqb x y = true -> x = y) ->
+  forall l1 l2, list_eqb eqb l1 l2 = true -> l1 = l2.
+Proof.
+  intros He. induction l1 as [|x l1 IH]; intros [|y l2] H; simpl in H; try discriminate;
+    [reflexivity|].
+  apply andb_prop in H as [H1 H2]. f_equal; [apply He, H1|apply IH, H2].
+Qed.
+
+Definition row_eqb (r s : N * list str) : bool :=
+  N.eqb (fst r) (fst s) && list_eqb str_eqb (snd r) (snd s).
+Definition tbl_eqb (t1 t2 : tbl) : bool := list_eqb row_eqb t1 t2.
+
+Lemma tbl_eqb_eq t1 t2 : tbl_eqb t1 t2 = true -> t1 = t2.
+Proof.
+  apply list_eqb_eq. intros [a r] [b s] H. unfold row_eqb in H. simpl in H.
+  apply andb_prop in H as [H1 H2]. apply N.eqb_eq in H1.
+  apply list_eqb_eq in H2; [congruence|]. intros x y. apply str_eqb_eq.
+Qed.
+
+(** ** Fixed-point iteration with fuel *)
+
+Fixpoint iter {A} (eqb : A -> A -> bool) (F : A -> A) (fuel : nat) (x : A) : option A :=
+  match fuel with
+  | 0 => None
+  | S fuel' => let y := F x in if eqb y x then Some x else iter eqb F fuel' y
+  end.
+
+Lemma iter_inv {A} (eqb : A -> A -> bool) (F : A -> A) (P : A -> Prop) :
+  (forall y, P y -> P (F y)) ->
+  forall fuel x r, P x -> iter eqb F fuel x = Some r -> P r /\ eqb (F r) r = true.
+Proof.
+  intros HF. induction fuel as [|fuel IH]; intros x r Hx H; simpl in H; [discriminate|].
+  destruct (eqb (F x) x) eqn:E.
+  - inversion H; subst. auto.
+  - apply (IH (F x)); auto.
+Qed.
+
+(** ** FIRST_k *)
+
+Fixpoint first_of_form (k : nat) (t : tbl) (α : list sym) : list str :=
+  match α with
+  | [] => [[]]
+  | T x :: α' => kcat_l k [[x]] (first_of_form k t α')
+  | NT a :: α' => kcat_l k (lookup t a) (first_of_form k t α')
+  end.
+
+Definition first_step (k : nat) (g : cfg) (keys : list N) (t : tbl) : tbl :=
+  map (fun a => (a, mk_set (flat_map (fun p => first_of_form k t (rhs p)) (prods_of g a)))) keys.
+
+Definition first_ref (fuel k : nat) (g : cfg) : option tbl :=
+  let keys := nt_keys g in
+  iter tbl_eqb (first_step k g keys) fuel (empty_tbl keys).
+
+(** FIRST_k of every production, in grammar order (the [productions] vector of first.rs). *)
+Definition first_prods (k : nat) (g : cfg) (t : tbl) : list (list str) :=
+  map (fun p => first_of_form k t (rhs p)) (prods g).
+
+Section First.
+  Variable k : nat.
+  Variable g : cfg.
+
+  Definition first_sound (t : tbl) : Prop :=
+    forall a u, In u (lookup t a) -> First k g [NT a] u.
+
+  Lemma first_of_form_sound t : first_sound t ->
+    forall α u, In u (first_of_form k t α) -> First k g α u.
+  Proof.
+    intros Ht. induction α as [|[x|a] α IH]; intros u Hu; simpl in Hu.
+    - destruct Hu as [<-|[]]. apply First_nil. reflexivity.
+    - apply in_kcat_l in Hu as (x' & v & [<-|[]] & Hv & ->).
+      apply First_cons. exists (firstn k [x]), v. repeat split.
+      + apply First_T. reflexivity.
+      + apply IH, Hv.
+      + unfold kcat. symmetry. apply firstn_firstn_app.
+    - apply in_kcat_l in Hu as (x' & v & Hx & Hv & ->).
+      apply First_cons. exists x', v. repeat split; auto.
+  Qed.
+
+  Lemma lookup_first_step t a u :
+    In u (lookup (first_step k g (nt_keys g) t) a) <->
+    In a (nts g) /\ exists p, In p (prods g) /\ lhs p = a /\ In u (first_of_form k t (rhs p)).
+  Proof.
+    unfold first_step. destruct (in_dec N.eq_dec a (nt_keys g)) as [H|H].
+    - rewrite (lookup_map_in _ _ _ H), in_mk_set, in_flat_map. apply in_nt_keys in H. split.
+      + intros (p & Hp & Hu). apply in_prods_of in Hp as [Hp1 Hp2]. eauto 6.
+      + intros (_ & p & Hp1 & Hp2 & Hu). exists p. split; [apply in_prods_of; auto|exact Hu].
+    - rewrite (lookup_map_notin _ _ _ H). rewrite in_nt_keys in H.
+      split; [intros []|intros [H' _]; contradiction].
+  Qed.
+
+  Lemma first_step_sound t : first_sound t -> first_sound (first_step k g (nt_keys g) t).
+  Proof.
+    intros Ht a u Hu. apply lookup_first_step in Hu as (_ & p & Hp & Hl & Hu).
+    apply First_NT. exists p. repeat split; auto. apply (first_of_form_sound t Ht), Hu.
+  Qed.
+
+  Lemma first_empty_sound : first_sound (empty_tbl (nt_keys g)).
+  Proof. intros a u Hu. rewrite lookup_empty in Hu. destruct Hu. Qed.
+
+  Lemma first_stable_complete t : first_step k g (nt_keys g) t = t ->
+    forall α w, derives g α w -> In (firstn k w) (first_of_form k t α).
+  Proof.
+    intros Hst. induction 1 as [|x α w _ IH|a p α u v Hin Hl _ IHr _ IHa]; simpl.
+    - rewrite firstn_nil. left. reflexivity.
+    - apply in_kcat_l. exists [x], (firstn k w). repeat split; [left; reflexivity|exact IH|].
+      unfold kcat. symmetry. apply (firstn_app_firstn k [x] w).
+    - apply in_kcat_l. exists (firstn k u), (firstn k v). repeat split; [|exact IHa|].
+      + rewrite <- Hst. apply lookup_first_step. split.
+        * rewrite <- Hl. apply lhs_in_nts, Hin.
+        * exists p. auto.
+      + symmetry. apply kcat_firstn.
+  Qed.
+
+  Lemma first_ref_fixpoint fuel t : first_ref fuel k g = Some t ->
+    first_sound t /\ first_step k g (nt_keys g) t = t.
+  Proof.
+    intros H. unfold first_ref in H.
+    apply (iter_inv tbl_eqb _ first_sound first_step_sound) in H as [H1 H2].
+    - split; [exact H1|apply tbl_eqb_eq, H2].
+    - apply first_empty_sound.
+  Qed.
+End First.
+
+Theorem first_of_form_correct fuel k g t : first_ref fuel k g = Some t ->
+  forall α u, In u (first_of_form k t α) <-> First k g α u.
+Proof.
+  intros H α u. apply first_ref_fixpoint in H as [Hs Hst]. split.
+  - apply (first_of_form_sound k g t Hs).
+  - intros (w & Hw & ->). apply (first_stable_complete k g t Hst α w Hw).
+Qed.
+
+Corollary first_prods_correct fuel k g t : first_ref fuel k g = Some t ->
+  forall i p, nth_error (prods g) i = Some p ->
+  exists s, nth_error (first_prods k g t) i = Some s /\ forall u, In u s <-> First k g (rhs p) u.
+Proof.
+  intros H i p Hp. exists (first_of_form k t (rhs p)). split.
+  - unfold first_prods.
+    exact (map_nth_error (fun p => first_of_form k t (rhs p)) i (prods g) Hp).
+  - intros u. apply (first_of_form_correct fuel k g t H).
+Qed.
+
+(** Holds for every [a]; for [a] outside the grammar both sides are empty. *)
+Theorem first_ref_correct_all fuel k g t : first_ref fuel k g = Some t ->
+  forall a u, In u (lookup t a) <-> First k g [NT a] u.
+Proof.
+  intros H a u. pose proof (first_of_form_correct fuel k g t H) as Hf.
+  apply first_ref_fixpoint in H as [Hs Hst]. split; [apply Hs|].
+  intros Hu. apply Hf in Hu. cbn [first_of_form] in Hu.
+  apply in_kcat_l in Hu as (x & v & Hx & [<-|[]] & ->).
+  unfold kcat. rewrite app_nil_r, firstn_all2; [exact Hx|].
+  eapply First_kstr_len, Hs, Hx.
+Qed.
+
+Theorem first_ref_correct fuel k g t : first_ref fuel k g = Some t ->
+  forall a u, In a (nts g) -> (In u (lookup t a) <-> First k g [NT a] u).
+Proof. intros H a u _. apply (first_ref_correct_all fuel k g t H). Qed.
+
+(** ** FOLLOW_k *)
+
+(** One equation per occurrence of a non-terminal in a right-hand side:
+    (the non-terminal [b] at that position, the left-hand side [A], FIRST_k of what follows [b]). *)
+Fixpoint occs (k : nat) (ft : tbl) (A : N) (r : list sym) : list (N * N * list str) :=
+  match r with
+  | [] => []
+  | T _ :: r' => occs k ft A r'
+  | NT b :: r' => (b, A, first_of_form k ft r') :: occs k ft A r'
+  end.
+
+Definition follow_eqs (k : nat) (g : cfg) (ft : tbl) : list (N * N * list str) :=
+  flat_map (fun p => occs k ft (lhs p) (rhs p)) (prods g).
+
+Definition follow_step (k : nat) (g : cfg) (keys : list N) (eqs : list (N * N * list str))
+    (wt : tbl) : tbl :=
+  map (fun b =>
+         (b, mk_set ((if N.eqb b (start g) then [firstn k [eoi]] else []) ++
+                     flat_map (fun e => let '(b', A, F) := e in
+                                 if N.eqb b' b then kcat_l k F (lookup wt A) else []) eqs)))
+      keys.
+
+Definition follow_ref (fuel k : nat) (g : cfg) (ft : tbl) : option tbl :=
+  let keys := nt_keys g in
+  iter tbl_eqb (follow_step k g keys (follow_eqs k g ft)) fuel (empty_tbl keys).
+
+Lemma in_occs k ft A r b A' F :
+  In (b, A', F) (occs k ft A r) <->
+  A' = A /\ exists α γ, r = α ++ NT b :: γ /\ F = first_of_form k ft γ.
+Proof.
+  induction r as [|[x|c] r IH]; simpl.
+  - split; [intros []|intros (_ & α & γ & H & _); destruct α; discriminate].
+  - rewrite IH. split; intros (HA & α & γ & Hr & HF); split; auto.
+    + exists (T x :: α), γ. simpl. rewrite Hr. auto.
+    + destruct α as [|s α]; simpl in Hr; [discriminate|]. inversion Hr; subst. eauto.
+  - rewrite IH. split.
+    + intros [H|(HA & α & γ & Hr & HF)].
+      * inversion H; subst. split; auto. exists [], r. auto.
+      * split; auto. exists (NT c :: α), γ. simpl. rewrite Hr. auto.
+    + intros (HA & α & γ & Hr & HF). destruct α as [|s α]; simpl in Hr.
+      * inversion Hr; subst. left. reflexivity.
+      * inversion Hr; subst. right. split; auto. eauto.
+Qed.
+
+Lemma in_follow_eqs k g ft b A F :
+  In (b, A, F) (follow_eqs k g ft) <->
+  exists p α γ, In p (prods g) /\ lhs p = A /\ rhs p = α ++ NT b :: γ /\
+                F = first_of_form k ft γ.
+Proof.
+  unfold follow_eqs. rewrite in_flat_map. split.
+  - intros (p & Hp & H). apply in_occs in H as (HA & α & γ & Hr & HF). exists p, α, γ. auto.
+  - intros (p & α & γ & Hp & HA & Hr & HF). exists p. split; [exact Hp|].
+    apply in_occs. split; [auto|]. eauto.
+Qed.
+
+Section Follow.
+  Variable k : nat.
+  Variable g : cfg.
+  Variable ft : tbl.
+  Hypothesis Hft : forall α u, In u (first_of_form k ft α) <-> First k g α u.
+
+  Lemma lookup_follow_step wt b u :
+    In u (lookup (follow_step k g (nt_keys g) (follow_eqs k g ft) wt) b) <->
+    In b (nts g) /\
+    ((b = start g /\ u = firstn k [eoi]) \/
+     exists p α γ x v, In p (prods g) /\ rhs p = α ++ NT b :: γ /\
+       First k g γ x /\ In v (lookup wt (lhs p)) /\ u = kcat k x v).
+  Proof.
+    unfold follow_step. destruct (in_dec N.eq_dec b (nt_keys g)) as [H|H].
+    - rewrite (lookup_map_in _ _ _ H), in_mk_set, in_app_iff, in_flat_map.
+      apply in_nt_keys in H. split.
+      + intros [Hu|([[b' A] F] & He & Hu)]; (split; [exact H|]).
+        * left. destruct (N.eqb_spec b (start g)) as [E|E]; [|destruct Hu].
+          destruct Hu as [<-|[]]. auto.
+        * right. destruct (N.eqb_spec b' b) as [->|E]; [|destruct Hu].
+          apply in_follow_eqs in He as (p & α & γ & Hp & HA & Hr & ->).
+          apply in_kcat_l in Hu as (x & v & Hx & Hv & ->). subst A.
+          exists p, α, γ, x, v. repeat split; auto. apply Hft, Hx.
+      + intros (_ & [[-> ->]|(p & α & γ & x & v & Hp & Hr & Hx & Hv & ->)]).
+        * left. rewrite N.eqb_refl. left. reflexivity.
+        * right. exists (b, lhs p, first_of_form k ft γ). split.
+          -- apply in_follow_eqs. exists p, α, γ. auto.
+          -- rewrite N.eqb_refl. apply in_kcat_l. exists x, v. repeat split; auto.
+             apply Hft, Hx.
+    - rewrite (lookup_map_notin _ _ _ H). rewrite in_nt_keys in H.
+      split; [intros []|intros [H' _]; contradiction].
+  Qed.
+
+  Definition follow_sound (wt : tbl) : Prop :=
+    forall a u, In u (lookup wt a) -> Follow k g a u.
+
+  Lemma follow_step_sound wt :
+    follow_sound wt -> follow_sound (follow_step k g (nt_keys g) (follow_eqs k g ft) wt).
+  Proof.
+    intros Hw b u Hu.
+    apply lookup_follow_step in Hu
+      as (_ & [[-> ->]|(p & α & γ & x & v & Hp & Hr & Hx & Hv & ->)]).
+    - apply Follow_start.
+    - eapply Follow_prod; eauto.
+  Qed.
+
+  Lemma follow_empty_sound : follow_sound (empty_tbl (nt_keys g)).
+  Proof. intros a u Hu. rewrite lookup_empty in Hu. destruct Hu. Qed.
+
+  Lemma follow_stable_complete wt :
+    follow_step k g (nt_keys g) (follow_eqs k g ft) wt = wt ->
+    forall a u, Follow k g a u -> In u (lookup wt a).
+  Proof.
+    intros Hst. apply (Follow_least k g (fun a u => In u (lookup wt a))).
+    - rewrite <- Hst. apply lookup_follow_step. split; [left; reflexivity|]. left. auto.
+    - intros p α b γ x v Hp Hr Hx Hv. rewrite <- Hst. apply lookup_follow_step. split.
+      + apply (rhs_in_nts g p b Hp). rewrite Hr. apply in_or_app. right. left. reflexivity.
+      + right. exists p, α, γ, x, v. auto.
+  Qed.
+
+  Lemma follow_ref_fixpoint fuel wt : follow_ref fuel k g ft = Some wt ->
+    follow_sound wt /\ follow_step k g (nt_keys g) (follow_eqs k g ft) wt = wt.
+  Proof.
+    intros H. unfold follow_ref in H.
+    apply (iter_inv tbl_eqb _ follow_sound follow_step_sound) in H as [H1 H2].
+    - split; [exact H1|apply tbl_eqb_eq, H2].
+    - apply follow_empty_sound.
+  Qed.
+End Follow.
+
+(** Holds for every [a]; no reachability or productivity assumption is needed. *)
+Theorem follow_ref_correct_all fuel fuel' k g ft wt :
+  first_ref fuel k g = Some ft -> follow_ref fuel' k g ft = Some wt ->
+  forall a u, In u (lookup wt a) <-> Follow k g a u.
+Proof.
+  intros H1 H2 a u. pose proof (first_of_form_correct fuel k g ft H1) as Hft.
+  apply (follow_ref_fixpoint k g ft Hft) in H2 as [Hs Hst]. split.
+  - apply Hs.
+  - apply (follow_stable_complete k g ft Hft wt Hst).
+Qed.
+
+Theorem follow_ref_correct fuel fuel' k g ft wt :
+  first_ref fuel k g = Some ft -> follow_ref fuel' k g ft = Some wt ->
+  forall a u, In a (nts g) -> (In u (lookup wt a) <-> Follow k g a u).
+Proof. intros H1 H2 a u _. apply (follow_ref_correct_all fuel fuel' k g ft wt H1 H2). Qed.
+
+(** ** Strong LL(k) test *)
+
+(** Lookahead sets FIRST_k(rhs p) ·k FOLLOW_k(a) of the productions of [a], in grammar order. *)
+Definition la_sets (k : nat) (g : cfg) (ft wt : tbl) (a : N) : list (list str) :=
+  map (fun p => kconcat_l k (first_of_form k ft (rhs p)) (lookup wt a)) (prods_of g a).
+
+Fixpoint pairwise_disjoint (l : list (list str)) : bool :=
+  match l with
+  | [] => true
+  | x :: r => forallb (disjointb x) r && pairwise_disjoint r
+  end.
+
+Definition sll_check (k : nat) (g : cfg) (ft wt : tbl) (a : N) : bool :=
+  pairwise_disjoint (la_sets k g ft wt a).
+
+Lemma pairwise_disjoint_spec l :
+  pairwise_disjoint l = true <->
+  forall i j x y, i <> j -> nth_error l i = Some x -> nth_error l j = Some y ->
+    forall w, In w x -> In w y -> False.
+Proof.
+  induction l as [|z l IH]; simpl.
+  - split; [|reflexivity]. intros _ [|i] j x y _ H; discriminate.
+  - rewrite andb_true_iff, forallb_forall, IH. split.
+    + intros [H1 H2] [|i] [|j] x y Hij Hx Hy w Hwx Hwy; simpl in Hx, Hy.
+      * congruence.
+      * inversion Hx; subst. apply nth_error_In in Hy.
+        apply (proj1 (disjointb_spec x y) (H1 y Hy) w Hwx Hwy).
+      * inversion Hy; subst. apply nth_error_In in Hx.
+        apply (proj1 (disjointb_spec y x) (H1 x Hx) w Hwy Hwx).
+      * apply (H2 i j x y) with (w := w); auto.
+    + intros H. split.
+      * intros y Hy. apply disjointb_spec. intros w Hwz Hwy.
+        apply In_nth_error in Hy as (j & Hj).
+        apply (H 0 (S j) z y) with (w := w); auto.
+      * intros i j x y Hij Hx Hy. apply (H (S i) (S j) x y); auto.
+Qed.
+
+Theorem sll_check_correct k g ft wt a :
+  (forall α u, In u (first_of_form k ft α) <-> First k g α u) ->
+  (forall u, In u (lookup wt a) <-> Follow k g a u) ->
+  (sll_check k g ft wt a = true <-> SLL k g a).
+Proof.
+  intros Hft Hwt. unfold sll_check, la_sets, SLL. rewrite pairwise_disjoint_spec.
+  assert (HLA : forall p w,
+             In w (kconcat_l k (first_of_form k ft (rhs p)) (lookup wt a)) <-> LA k g a p w).
+  { intros p w. rewrite in_kconcat_l. unfold LA, kconcat_sets.
+    split; intros (u & v & Hu & Hv & ->); exists u, v; repeat split; auto;
+      try (apply Hft, Hu); apply Hwt, Hv. }
+  split.
+  - intros H i j p q Hij Hp Hq w Hwp Hwq.
+    apply (H i j _ _ Hij (map_nth_error _ i _ Hp) (map_nth_error _ j _ Hq) w);
+      apply HLA; assumption.
+  - intros H i j x y Hij Hx Hy w Hwx Hwy.
+    rewrite nth_error_map in Hx, Hy.
+    destruct (nth_error (prods_of g a) i) as [p|] eqn:Ep; [|discriminate].
+    destruct (nth_error (prods_of g a) j) as [q|] eqn:Eq; [|discriminate].
+    simpl in Hx, Hy. inversion Hx; subst. inversion Hy; subst.
+    apply (H i j p q Hij Ep Eq w); apply HLA; assumption.
+Qed.
+
+(** The same with the tables produced by the reference computations. *)
+Corollary sll_check_ref_correct fuel fuel' k g ft wt a :
+  first_ref fuel k g = Some ft -> follow_ref fuel' k g ft = Some wt ->
+  (sll_check k g ft wt a = true <-> SLL k g a).
+Proof.
+  intros H1 H2. apply sll_check_correct.
+  - apply (first_of_form_correct fuel k g ft H1).
+  - intros u. apply (follow_ref_correct_all fuel fuel' k g ft wt H1 H2).
+Qed.
+
+(** ** The LL(k) decision *)
+
+(** What [decide_ref] reports for non-terminal [a], following [decidable] of k_decision.rs:
+    no production: "not part of the grammar" ([None]); exactly one production: [Some 0];
+    otherwise the least k in 1..K at which [a] is strong LL(k), [None] if there is none. *)
+Definition decide_spec (K : nat) (g : cfg) (a : N) (r : option nat) : Prop :=
+  match prods_of g a with
+  | [] => r = None
+  | [_] => r = Some 0
+  | _ :: _ :: _ =>
+      match r with
+      | Some k => 1 <= k <= K /\ SLL k g a /\ forall j, 1 <= j < k -> ~ SLL j g a
+      | None => forall j, 1 <= j <= K -> ~ SLL j g a
+      end
+  end.
+
+Lemma decide_spec_functional K g a r r' : decide_spec K g a r -> decide_spec K g a r' -> r = r'.
+Proof.
+  unfold decide_spec. destruct (prods_of g a) as [|p [|q l]]; try congruence.
+  destruct r as [k|], r' as [k'|]; intros H H'; try reflexivity.
+  - destruct H as (Hk & Hs & Hm), H' as (Hk' & Hs' & Hm'). f_equal.
+    destruct (Nat.lt_trichotomy k k') as [L|[L|L]]; [|exact L|].
+    + exfalso. apply (Hm' k); [lia|exact Hs].
+    + exfalso. apply (Hm k'); [lia|exact Hs'].
+  - destruct H as (Hk & Hs & _). exfalso. apply (H' k); [lia|exact Hs].
+  - destruct H' as (Hk & Hs & _). exfalso. apply (H k'); [lia|exact Hs].
+Qed.
+
+(** Non-terminals still undecided are tested at k, k+1, ... (n values); the tables for a value
+    of k are computed only if some non-terminal still needs them. *)
+Fixpoint decide_loop (fuel : nat) (g : cfg) (n k : nat) (pending : list N)
+    : option (list (N * option nat)) :=
+  match pending with
+  | [] => Some []
+  | _ :: _ =>
+      match n with
+      | 0 => Some (map (fun a => (a, None)) pending)
+      | S n' =>
+          match first_ref fuel k g with
+          | None => None
+          | Some ft =>
+              match follow_ref fuel k g ft with
+              | None => None
+              | Some wt =>
+                  let yes := filter (sll_check k g ft wt) pending in
+                  let no := filter (fun a => negb (sll_check k g ft wt a)) pending in
+                  match decide_loop fuel g n' (S k) no with
+                  | None => None
+                  | Some rest => Some (map (fun a => (a, Some k)) yes ++ rest)
+                  end
+              end
+          end
+      end
+  end.
+
+Definition trivial_rows (g : cfg) (keys : list N) : list (N * option nat) :=
+  flat_map (fun a => match prods_of g a with
+                     | [] => [(a, None)]
+                     | [_] => [(a, Some 0)]
+                     | _ :: _ :: _ => []
+                     end) keys.
+
+Definition needs_lookahead (g : cfg) (a : N) : bool :=
+  match prods_of g a with _ :: _ :: _ => true | _ => false end.
+
+Definition decide_ref (fuel K : nat) (g : cfg) : option (list (N * option nat)) :=
+  let keys := nt_keys g in
+  match decide_loop fuel g K 1 (filter (needs_lookahead g) keys) with
+  | None => None
+  | Some rows => Some (trivial_rows g keys ++ rows)
+  end.
+
+Lemma decide_loop_spec fuel g : forall n k pending rows,
+  decide_loop fuel g n k pending = Some rows ->
+  (forall a r, In (a, r) rows ->
+     In a pending /\
+     match r with
+     | Some j => k <= j < k + n /\ SLL j g a /\ forall i, k <= i < j -> ~ SLL i g a
+     | None => forall i, k <= i < k + n -> ~ SLL i g a
+     end) /\
+  (forall a, In a pending -> exists r, In (a, r) rows).
+Proof.
+  induction n as [|n IH]; intros k pending rows H.
+  - destruct pending as [|a0 pending].
+    + inversion H; subst. split; [intros a r []|intros a []].
+    + remember (a0 :: pending) as pend eqn:Epend.
+      assert (Hrows : rows = map (fun a => (a, @None nat)) pend)
+        by (rewrite Epend in H |- *; simpl in H; simpl; congruence).
+      clear H Epend a0 pending. subst rows. rename pend into pending. split.
+      * intros a r Hin. apply in_map_iff in Hin as (b & E & Hb). inversion E; subst.
+        split; [exact Hb|]. intros i Hi. lia.
+      * intros a Ha. exists None. apply in_map_iff. exists a. auto.
+  - destruct pending as [|a0 pending]; [inversion H; subst; split; [intros a r []|intros a []]|].
+    remember (a0 :: pending) as pend eqn:Epend. simpl in H. rewrite Epend in H at 1.
+    destruct (first_ref fuel k g) as [ft|] eqn:E1; [|discriminate].
+    destruct (follow_ref fuel k g ft) as [wt|] eqn:E2; [|discriminate].
+    destruct (decide_loop fuel g n (S k) (filter (fun a => negb (sll_check k g ft wt a)) pend))
+      as [rest|] eqn:E3; [|discriminate].
+    inversion H; subst rows; clear H.
+    pose proof (fun a => sll_check_ref_correct fuel fuel k g ft wt a E1 E2) as Hc.
+    apply IH in E3 as [R1 R2]. split.
+    + intros a r Hin. apply in_app_or in Hin as [Hin|Hin].
+      * apply in_map_iff in Hin as (b & E & Hb). inversion E; subst.
+        apply filter_In in Hb as [Hb1 Hb2]. split; [exact Hb1|].
+        split; [lia|]. split; [apply Hc, Hb2|]. intros i Hi. lia.
+      * apply R1 in Hin as [Hp Hr]. apply filter_In in Hp as [Hp1 Hp2].
+        apply negb_true_iff in Hp2.
+        assert (Hk : ~ SLL k g a) by (intros Hs; apply Hc in Hs; congruence).
+        split; [exact Hp1|]. destruct r as [j|].
+        -- destruct Hr as (Hj & Hs & Hm). split; [lia|]. split; [exact Hs|].
+           intros i Hi. destruct (Nat.eq_dec i k) as [->|Hne]; [exact Hk|]. apply Hm. lia.
+        -- intros i Hi. destruct (Nat.eq_dec i k) as [->|Hne]; [exact Hk|]. apply Hr. lia.
+    + intros a Ha. destruct (sll_check k g ft wt a) eqn:Es.
+      * exists (Some k). apply in_or_app. left. apply in_map_iff. exists a. split; [reflexivity|].
+        apply filter_In. auto.
+      * destruct (R2 a) as (r & Hr).
+        -- apply filter_In. rewrite Es. auto.
+        -- exists r. apply in_or_app. right. exact Hr.
+Qed.
+
+Theorem decide_ref_correct fuel K g rows : decide_ref fuel K g = Some rows ->
+  (forall a r, In (a, r) rows -> In a (nts g) /\ decide_spec K g a r) /\
+  (forall a, In a (nts g) -> exists r, In (a, r) rows).
+Proof.
+  unfold decide_ref. intros H.
+  destruct (decide_loop fuel g K 1 (filter (needs_lookahead g) (nt_keys g))) as [rs|] eqn:E;
+    [|discriminate].
+  inversion H; subst rows; clear H. apply decide_loop_spec in E as [R1 R2]. split.
+  - intros a r Hin. apply in_app_or in Hin as [Hin|Hin].
+    + unfold trivial_rows in Hin. apply in_flat_map in Hin as (b & Hb & Hin).
+      apply in_nt_keys in Hb. unfold decide_spec.
+      destruct (prods_of g b) as [|p [|q l]] eqn:Ep; simpl in Hin.
+      * destruct Hin as [Hin|[]]. inversion Hin; subst. rewrite Ep. auto.
+      * destruct Hin as [Hin|[]]. inversion Hin; subst. rewrite Ep. auto.
+      * destruct Hin.
+    + apply R1 in Hin as [Hp Hr]. apply filter_In in Hp as [Hp1 Hp2]. apply in_nt_keys in Hp1.
+      split; [exact Hp1|]. unfold decide_spec. unfold needs_lookahead in Hp2.
+      destruct (prods_of g a) as [|p [|q l]]; try discriminate.
+      destruct r as [j|].
+      * destruct Hr as (Hj & Hs & Hm). split; [lia|]. split; [exact Hs|].
+        intros i Hi. apply Hm. lia.
+      * intros i Hi. apply Hr. lia.
+  - intros a Ha. apply in_nt_keys in Ha. destruct (needs_lookahead g a) eqn:En.
+    + destruct (R2 a) as (r & Hr); [apply filter_In; auto|].
+      exists r. apply in_or_app. right. exact Hr.
+    + unfold needs_lookahead in En.
+      destruct (prods_of g a) as [|p [|q l]] eqn:Ep; try discriminate.
+      * exists None. apply in_or_app. left. apply in_flat_map. exists a.
+        split; [exact Ha|]. rewrite Ep. left. reflexivity.
+      * exists (Some 0). apply in_or_app. left. apply in_flat_map. exists a.
+        split; [exact Ha|]. rewrite Ep. left. reflexivity.
+Qed.
+
+(** ** Examples *)
+
+(** [S -> A a | b ;  A -> ε | c A]   with S = 0, A = 1, a = 5, b = 6, c = 7. *)
+Definition g1 : cfg :=
+  mkCfg 0 [mkProd 0 [NT 1; T 5]; mkProd 0 [T 6]; mkProd 1 []; mkProd 1 [T 7; NT 1]]%N.
+
+Definition g1_first2 : tbl := [(0, [[5]; [6]; [7; 5]; [7; 7]]); (1, [[]; [7]; [7; 7]])]%N.
+Definition g1_follow2 : tbl := [(0, [[0]]); (1, [[5; 0]])]%N.
+
+Example g1_first_2 : first_ref 20 2 g1 = Some g1_first2.
+Proof. vm_compute. reflexivity. Qed.
+
+Example g1_follow_2 : follow_ref 20 2 g1 g1_first2 = Some g1_follow2.
+Proof. vm_compute. reflexivity. Qed.
+
+Example g1_first_of_production :
+  first_of_form 2 g1_first2 [NT 1; T 5]%N = [[5]; [7; 5]; [7; 7]]%N.
+Proof. vm_compute. reflexivity. Qed.
+
+Example g1_first_3 :
+  first_ref 20 3 g1 =
+  Some [(0, [[5]; [6]; [7; 5]; [7; 7; 5]; [7; 7; 7]]); (1, [[]; [7]; [7; 7]; [7; 7; 7]])]%N.
+Proof. vm_compute. reflexivity. Qed.
+
+Example g1_sll_1 :
+  sll_check 2 g1 g1_first2 g1_follow2 0 = true /\ sll_check 2 g1 g1_first2 g1_follow2 1 = true.
+Proof. vm_compute. auto. Qed.
+
+Example g1_decide : decide_ref 20 3 g1 = Some [(0%N, Some 1); (1%N, Some 1)].
+Proof. vm_compute. reflexivity. Qed.
+
+(** FIRST_0 and FOLLOW_0 are [{ε}] (note: follow.rs puts the one-element string [$] into
+    FOLLOW_0 of the start symbol; k = 0 is never used by the decision for non-trivial
+    non-terminals). *)
+Example g1_k0 :
+  first_ref 20 0 g1 = Some [(0, [[]]); (1, [[]])]%N /\
+  follow_ref 20 0 g1 [(0, [[]]); (1, [[]])]%N = Some [(0, [[]]); (1, [[]])]%N.
+Proof. vm_compute. auto. Qed.
+
+(** [S -> a b | a c] needs two symbols;  [S -> A | a ; A -> a] is not LL(k) for any k, and the
+    single-production [A] gets 0. *)
+Definition g2 : cfg := mkCfg 0 [mkProd 0 [T 5; T 6]; mkProd 0 [T 5; T 7]]%N.
+Definition g3 : cfg := mkCfg 0 [mkProd 0 [NT 1]; mkProd 0 [T 5]; mkProd 1 [T 5]]%N.
+
+Example g2_decide : decide_ref 20 3 g2 = Some [(0%N, Some 2)].
+Proof. vm_compute. reflexivity. Qed.
+Example g2_decide_K1 : decide_ref 20 1 g2 = Some [(0%N, None)].
+Proof. vm_compute. reflexivity. Qed.
+Example g3_decide : decide_ref 20 4 g3 = Some [(1%N, Some 0); (0%N, None)].
+Proof. vm_compute. reflexivity. Qed.
+Example g3_follow_2 :
+  follow_ref 20 2 g3 [(0, [[5]]); (1, [[5]])]%N = Some [(0, [[0]]); (1, [[0]])]%N.
+Proof. vm_compute. reflexivity. Qed.
+
+(** Left recursion is no problem for the iteration from the empty sets: [A -> A a | b]. *)
+Definition g4 : cfg := mkCfg 0 [mkProd 0 [NT 0; T 5]; mkProd 0 [T 6]]%N.
+Example g4_first_1 : first_ref 20 1 g4 = Some [(0, [[6]])]%N.
+Proof. vm_compute. reflexivity. Qed.
+Example g4_first_2 : first_ref 20 2 g4 = Some [(0, [[6]; [6; 5]])]%N.
+Proof. vm_compute. reflexivity. Qed.
+
+(** An unproductive tail empties the product ([S -> a B ; B -> B]): FIRST_1(S) = ∅. *)
+Definition g5 : cfg := mkCfg 0 [mkProd 0 [T 5; NT 1]; mkProd 1 [NT 1]]%N.
+Example g5_first_1 : first_ref 20 1 g5 = Some [(0, []); (1, [])]%N.
+Proof. vm_compute. reflexivity. Qed.
+
+Example g1_eoi_free : eoi_free g1 = true.
+Proof. reflexivity. Qed.
+
+Example g1_first_prods :
+  first_prods 2 g1 g1_first2 = [[[5]; [7; 5]; [7; 7]]; [[6]]; [[]]; [[7]; [7; 7]]]%N.
+Proof. vm_compute. reflexivity. Qed.
+
+(** Fuel exhaustion is reported. *)
+Example g1_no_fuel : first_ref 2 2 g1 = None.
+Proof. vm_compute. reflexivity. Qed.
+
+(** The hypotheses of [sll_check_correct] are satisfiable (by the reference tables). *)
+Example sll_check_hyps :
+  (forall α u, In u (first_of_form 2 g1_first2 α) <-> First 2 g1 α u) /\
+  (forall u, In u (lookup g1_follow2 1%N) <-> Follow 2 g1 1%N u).
+Proof.
+  split.
+  - apply (first_of_form_correct 20 2 g1 g1_first2 g1_first_2).
+  - intros u. apply (follow_ref_correct_all 20 20 2 g1 g1_first2 g1_follow2 g1_first_2 g1_follow_2).
+Qed.
+
+(** Consequences on the example: membership in the derivation-based sets, by computation. *)
+Example g1_Follow_A : forall u, Follow 2 g1 1%N u <-> u = [5; 0]%N.
+Proof.
+  intros u.
+  rewrite <- (follow_ref_correct_all 20 20 2 g1 g1_first2 g1_follow2 g1_first_2 g1_follow_2).
+  simpl. intuition.
+Qed.
+
+Example g1_SLL_1 : SLL 1 g1 0%N /\ SLL 1 g1 1%N /\ ~ SLL 1 g2 0%N /\ SLL 2 g2 0%N.
+Proof.
+  pose proof (decide_ref_correct 20 3 g1 _ g1_decide) as [H1 _].
+  pose proof (decide_ref_correct 20 3 g2 _ g2_decide) as [H2 _].
+  destruct (H1 0%N (Some 1)) as [_ Ha]; [left; reflexivity|].
+  destruct (H1 1%N (Some 1)) as [_ Hb]; [right; left; reflexivity|].
+  destruct (H2 0%N (Some 2)) as [_ Hc]; [left; reflexivity|].
+  unfold decide_spec in Ha, Hb, Hc. simpl in Ha, Hb, Hc.
+  destruct Ha as (_ & Ha & _), Hb as (_ & Hb & _), Hc as (_ & Hc & Hm).
+  split; [exact Ha|]. split; [exact Hb|]. split; [apply Hm; lia|exact Hc].
+Qed.
+
+Print Assumptions first_ref_correct.
+Print Assumptions first_ref_correct_all.
+Print Assumptions first_of_form_correct.
+Print Assumptions first_prods_correct.
+Print Assumptions follow_ref_correct.
+Print Assumptions follow_ref_correct_all.
+Print Assumptions sll_check_correct.
+Print Assumptions sll_check_ref_correct.
+Print Assumptions decide_ref_correct.
+Print Assumptions decide_spec_functional.
